@@ -57,8 +57,11 @@ Definition ends_with (p t : text) : bool := starts_with (rev p) (rev t).
 Fixpoint contains (p t : text) : bool :=
   starts_with p t || match t with [] => false | _ :: r => contains p r end.
 
+(* str.isspace() of one code point *)
 Definition is_space (c : N) : bool :=
-  (c =? 32)%N || ((9 <=? c) && (c <=? 13))%N || ((28 <=? c) && (c <=? 31))%N || (c =? 133)%N || (c =? 160)%N.
+  (c =? 32)%N || ((9 <=? c) && (c <=? 13))%N || ((28 <=? c) && (c <=? 31))%N || (c =? 133)%N || (c =? 160)%N ||
+  (c =? 5760)%N || ((8192 <=? c) && (c <=? 8202))%N || (c =? 8232)%N || (c =? 8233)%N || (c =? 8239)%N ||
+  (c =? 8287)%N || (c =? 12288)%N.
 
 Fixpoint lstrip (t : text) : text :=
   match t with c :: r => if is_space c then lstrip r else t | [] => [] end.
@@ -86,35 +89,57 @@ Fixpoint line_to_command (t : text) : option (text * text * text) :=
   end.
 
 (* ---------------------------------------------------------------- ingestion (fill_from_file) *)
-Definition ingest_line (acc : store * option (text * text * text)) (raw : text)
-  : store * option (text * text * text) :=
-  let '(st, cmd) := acc in
-  let line := rstrip_set [34; 44]%N (strip raw) in
-  let has_r := contains s_RESTRICTED line in
-  let has_u := contains s_UNDEFINED line in
-  match cmd with
-  | Some (s, f, _) =>
-      if has_r || has_u then
-        (if teqb (get_data st s f) s_UNDEFINED
-         then add_data st s f (if has_r then s_RESTRICTED else s_UNDEFINED) else st, cmd)
-      else
+Section Ingest.
+  (* regenerated from the AST: does fill_from_file decode a line that is a JSON string (diagnostics output)? *)
+  Variable json : bool.
+  (* oracle: json.loads of a quoted line; None = ValueError *)
+  Variable py_json : text -> option text.
+
+  (* the line as the command parser sees it *)
+  Definition clean (raw : text) : text :=
+    let l := strip raw in
+    if json then
+      let l1 := rstrip_set [44]%N l in
+      if (2 <=? length l1)%nat && starts_with [34]%N l1 && ends_with [34]%N l1 then
+        match py_json l1 with Some t => t | None => rstrip_set [34; 44]%N l1 end
+      else rstrip_set [34; 44]%N l
+    else rstrip_set [34; 44]%N l.
+
+  Definition ingest_line (acc : store * option (text * text * text)) (raw : text)
+    : store * option (text * text * text) :=
+    let '(st, cmd) := acc in
+    let line := clean raw in
+    let has_r := contains s_RESTRICTED line in
+    let has_u := contains s_UNDEFINED line in
+    match cmd with
+    | Some (s, f, _) =>
+        if has_r || has_u then
+          (if teqb (get_data st s f) s_UNDEFINED
+           then add_data st s f (if has_r then s_RESTRICTED else s_UNDEFINED) else st, cmd)
+        else
+          match line_to_command line with
+          | Some (s', f', v') => (if teqb v' s_q then st else add_data st s' f' v', Some (s', f', v'))
+          | None => (st, None)
+          end
+    | None =>
         match line_to_command line with
         | Some (s', f', v') => (if teqb v' s_q then st else add_data st s' f' v', Some (s', f', v'))
         | None => (st, None)
         end
-  | None =>
-      match line_to_command line with
-      | Some (s', f', v') => (if teqb v' s_q then st else add_data st s' f' v', Some (s', f', v'))
-      | None => (st, None)
-      end
-  end.
+    end.
 
-Definition ingest (lines : list text) : store := fst (fold_left ingest_line lines ([], None)).
+  Definition ingest (lines : list text) : store := fst (fold_left ingest_line lines ([], None)).
+End Ingest.
 
 (* ---------------------------------------------------------------- the handler *)
 (* What the translator reads off the AST of ynca/server.py (Gen/ServerTables.v): which of the
    operations that can raise in Python are guarded, and the truth table of the condition that selects
    the relative-volume branch.  With a guard absent the model raises where the code raises. *)
+(* what float(text) can be: a finite double (as its exact rational), an infinity or a NaN *)
+Inductive fl := Fin (n : Z) (d : positive) | PInf | NInf | NaN.
+(* int -> float conversion in `float + int` raises OverflowError from here on (round-half-even to 2^1024) *)
+Definition int_overflows (z : Z) : bool := (2 ^ 1024 - 2 ^ 970 <=? Z.abs z)%Z.
+
 Record cfg := {
   g_inp_get : bool;        (* SYS INPNAME: store looked up with .get("SYS", {}) rather than indexed *)
   g_scene_get : bool;      (* SCENENAME: store looked up with .get(subunit, {}) rather than indexed *)
@@ -123,7 +148,10 @@ Record cfg := {
   g_pb_guard : bool;       (* PLAYBACK on a zone: empty source-subunit list tested before [0] *)
   g_err_exact : bool;      (* stored value is an error iff it IS one of the two markers (not: starts with '@') *)
   g_rel_exact : bool;      (* related-function reports skip both error markers (not only @UNDEFINED) *)
-  g_lenient : bool         (* received bytes decoded with errors="replace" *)
+  g_lenient : bool;        (* received bytes decoded with errors="replace" *)
+  g_inp_none : bool;       (* SYS INPNAME: an error line when no input name was sent *)
+  g_scene_sent : bool;     (* SCENENAME: the error line is sent when no scene name was SENT (not: when no key matched) *)
+  g_vol_ovf : bool         (* the handler of the relative step also catches OverflowError (float + huge int) *)
 }.
 
 Definition rel_index (a b c d : bool) : nat :=
@@ -132,7 +160,7 @@ Definition good_rel : list bool :=
   [false; false; false; false; false; true; true; true; false; true; true; true; false; true; true; true].
 Definition good_cfg : cfg :=
   {| g_inp_get := true; g_scene_get := true; g_rel := good_rel; g_vol_try := true; g_pb_guard := true;
-     g_err_exact := true; g_rel_exact := true; g_lenient := true |}.
+     g_err_exact := true; g_rel_exact := true; g_lenient := true; g_inp_none := true; g_scene_sent := true; g_vol_ovf := true |}.
 
 Definition list_bool_eqb (a b : list bool) : bool :=
   Nat.eqb (length a) (length b) && forallb (fun p => Bool.eqb (fst p) (snd p)) (combine a b).
@@ -140,7 +168,9 @@ Definition cfg_eqb (a b : cfg) : bool :=
   Bool.eqb (g_inp_get a) (g_inp_get b) && Bool.eqb (g_scene_get a) (g_scene_get b) &&
   list_bool_eqb (g_rel a) (g_rel b) && Bool.eqb (g_vol_try a) (g_vol_try b) &&
   Bool.eqb (g_pb_guard a) (g_pb_guard b) && Bool.eqb (g_err_exact a) (g_err_exact b) &&
-  Bool.eqb (g_rel_exact a) (g_rel_exact b) && Bool.eqb (g_lenient a) (g_lenient b).
+  Bool.eqb (g_rel_exact a) (g_rel_exact b) && Bool.eqb (g_lenient a) (g_lenient b) &&
+  Bool.eqb (g_inp_none a) (g_inp_none b) && Bool.eqb (g_scene_sent a) (g_scene_sent b) &&
+  Bool.eqb (g_vol_ovf a) (g_vol_ovf b).
 
 Section Handler.
   Variable c : cfg.
@@ -149,7 +179,7 @@ Section Handler.
   Variable inp_map : list (text * list text).         (* INPUT_SUBUNITLIST_MAPPING: input wire text -> subunits *)
   Variable zones : list text.
   (* oracles: float(text) as an exact rational, int(text), and str(float + amount) *)
-  Variable py_float : text -> option (Z * positive).
+  Variable py_float : text -> option fl.
   Variable py_int : text -> option Z.
   Variable py_str_float : Z * positive -> text.
 
@@ -168,20 +198,21 @@ Section Handler.
     | O => Ok []
     | S fuel' =>
         if teqb s s_SYS && teqb f s_INPNAME then
+          let none : list text := if g_inp_none c then [s_UNDEFINED] else [] in
           match assoc s_SYS st with
           | Some fs =>
-              Ok (flat_map (fun k => if starts_with s_INPNAME k && negb (teqb k s_INPNAME)
-                                     then fst (send_stored st s k true) else []) (map fst fs))
-          | None => if g_inp_get c then Ok [] else Raise               (* KeyError *)
+              let out := flat_map (fun k => if starts_with s_INPNAME k && negb (teqb k s_INPNAME)
+                                            then fst (send_stored st s k true) else []) (map fst fs) in
+              Ok (match out with [] => none | _ => out end)
+          | None => if g_inp_get c then Ok none else Raise               (* KeyError *)
           end
         else if teqb f s_SCENENAME then
           match assoc s st with
           | Some fs =>
               let ks := filter (fun k => starts_with s_SCENE k && ends_with s_NAME k && negb (teqb k s_SCENENAME)) (map fst fs) in
-              match ks with
-              | [] => Ok [s_UNDEFINED]
-              | _ => Ok (flat_map (fun k => fst (send_stored st s k true)) ks)
-              end
+              let out := flat_map (fun k => fst (send_stored st s k true)) ks in
+              if g_scene_sent c then Ok (match out with [] => [s_UNDEFINED] | _ => out end)
+              else Ok (match ks with [] => [s_UNDEFINED] | _ => out end)
           | None => if g_scene_get c then Ok [s_UNDEFINED] else Raise  (* KeyError *)
           end
         else if teqb f s_DIRMODE then
@@ -281,7 +312,8 @@ Section Handler.
   Definition relative (f v : text) : bool :=
     nth (rel_index (teqb f s_VOL) (teqb f s_ZONEBVOL) (starts_with s_Up v) (starts_with s_Down v)) (g_rel c) false.
 
-  (* the value to store: Ok (Some v1); Ok None = answered with an error line; Raise = ValueError escapes *)
+  (* the value to store: Ok (Some v1); Ok None = answered with an error line; Raise = the exception escapes.
+     Evaluation order of the code: int(), float() (ValueError), then float + int (OverflowError). *)
   Definition put_value (st : store) (s f v : text) : res (option text) :=
     if relative f v then
       let amount : option (Z * positive) :=
@@ -291,9 +323,17 @@ Section Handler.
         | [] => None
         end in
       match amount, py_float (get_data st s f) with
-      | Some (an, ad), Some (cn, cd) =>
-          let sgn := if starts_with s_Up v then 1%Z else (-1)%Z in
-          Ok (Some (py_str_float ((cn * Zpos ad + sgn * an * Zpos cd)%Z, (cd * ad)%positive)))
+      | Some (an, ad), Some x =>
+          if int_overflows an && Pos.eqb ad 1 then (if g_vol_ovf c then Ok None else Raise)
+          else
+            match x with
+            | Fin cn cd =>
+                let sgn := if starts_with s_Up v then 1%Z else (-1)%Z in
+                Ok (Some (py_str_float ((cn * Zpos ad + sgn * an * Zpos cd)%Z, (cd * ad)%positive)))
+            | PInf => Ok (Some s_inf)
+            | NInf => Ok (Some s_minf)
+            | NaN => Ok (Some s_nan)
+            end
       | _, _ => if g_vol_try c then Ok None else Raise
       end
     else Ok (Some v).
